@@ -33,6 +33,18 @@ fn integral_u32(n: f64) -> Option<u32> {
 }
 
 pub fn classify(m: &RefMsg) -> CIn {
+    // peers may flag AMF0 commands / data as AMF3 (types 17 with a leading 0 byte, and 15)
+    if m.type_id == 17 && m.payload.first() == Some(&0) {
+        let mut n = m.clone();
+        n.type_id = 20;
+        n.payload.remove(0);
+        return classify(&n);
+    }
+    if m.type_id == 15 {
+        let mut n = m.clone();
+        n.type_id = 18;
+        return classify(&n);
+    }
     match m.type_id {
         8 => CIn::Audio { msid: m.msid, len: m.payload.len(), hash: payload_hash(&m.payload), ts: m.ts },
         9 => CIn::Video { msid: m.msid, len: m.payload.len(), hash: payload_hash(&m.payload), ts: m.ts },
@@ -409,6 +421,16 @@ impl World {
         if self.model.err_permitted(&classify(&m)) && !matches!(classify(&m), CIn::Other) && !ctx.ch.chance("op.arg.risky", 1, 8) {
             self.peer_msgs += 1;
             return;
+        }
+        let mut m = m;
+        if (m.type_id == 20 || m.type_id == 18) && ctx.ch.chance("op.arg.amf3flag", 1, 10) {
+            ctx.probe("peer.amf3_flagged_message");
+            if m.type_id == 20 {
+                m.type_id = 17;
+                m.payload.insert(0, 0);
+            } else {
+                m.type_id = 15;
+            }
         }
         let csid = if ctx.ch.chance("op.arg.csidalt", 1, 6) { *ctx.ch.pick("op.arg.csid", &[3u32, 64, 320, 9]) } else { csid };
         let legal = self.enc.legal_formats(csid, &m);
